@@ -68,4 +68,9 @@ LangCodeRoundTrip == \A c \in 0..65535 : LangPack(LangUnpack(c)) = c % 32768
 FxNew(v, k) == v * (2 ^ k)
 FxValue(raw, k) == raw \div (2 ^ k)
 Fx88 == \A v \in 0..255 : FxValue(FxNew(v, 8), 8) = v
+\* signed 8.8: the raw 16-bit word r (two's complement) is the rational S16(r)/256; its value is the
+\* integer part of that rational (toward zero: -0.5 has the integer part 0, as +0.5 has)
+S16(r) == IF r < 32768 THEN r ELSE r - 65536
+FxValueS(r) == IF S16(r) >= 0 THEN S16(r) \div 256 ELSE -((-S16(r)) \div 256)
+Fx88S == \A v \in -128..127 : FxValueS((v * 256) % 65536) = v
 =============================================================================
